@@ -169,7 +169,7 @@ def records(ctx):
         return [g.copy() if a < 2 else make_grid(rng, rng.randint(3, L), None, perturb) for a in range(P)]
 
     # sizes: (max n, max grid points) per dimension and path
-    NMAX = {1: 20 if q else 40, 2: 12 if q else 40, 3: 6 if q else 12, 4: 3 if q else 6, 5: 2 if q else 6}
+    NMAX = {1: 20 if q else 40, 2: 12 if q else 24, 3: 6 if q else 12, 4: 3 if q else 6, 5: 2 if q else 6}
     LMAX = {1: 24 if q else 48, 2: 10 if q else 22, 3: 6 if q else 9, 4: 4 if q else 6, 5: 4 if q else 5}
 
     def rand_ns(P, hi=None):
@@ -177,7 +177,7 @@ def records(ctx):
         return [rng.randint(1, hi) for _ in range(P)]
 
     # ---- 1. default (analytic) path, 1-5 D ----
-    plan = {1: 10 if q else 60, 2: 8 if q else 40, 3: 5 if q else 24, 4: 3 if q else 12, 5: 2 if q else 6}
+    plan = {1: 10 if q else 40, 2: 8 if q else 30, 3: 5 if q else 20, 4: 3 if q else 10, 5: 2 if q else 5}
     for P, cnt in plan.items():
         for k in range(cnt):
             L = rng.randint(3, LMAX[P])
@@ -188,6 +188,8 @@ def records(ctx):
                 ns = [NMAX[1]]
             if P == 2 and k == 0:
                 ns = [NMAX[2], max(1, NMAX[2] // 2)]
+            if P == 2 and not q and k in (1, 2):       # the largest sample size of the statement, in either population
+                ns = [40, rng.randint(1, 12)][::(1 if k == 1 else -1)]
             if P == 5 and not q and k == 0:
                 ns = [2, 1, 3, 6, 2]
             while P >= 4 and np.prod([n + 1 for n in ns]) > 3000:      # keeps TLC's exact evaluation within the budget
@@ -214,7 +216,7 @@ def records(ctx):
     # ---- 2. direct path: force_direct and het_ascertained, 1-4 D (5-D: no direct rule exists) ----
     # every (dimension, ascertainment population) pair is covered, then random ones
     combos = [(P, h) for P in (1, 2, 3, 4) for h in range(0, min(P, 3) + 1)] + [(5, 0)]
-    extra = {1: 4 if q else 30, 2: 4 if q else 30, 3: 1 if q else 16, 4: 0 if q else 6, 5: 0 if q else 2}
+    extra = {1: 4 if q else 20, 2: 4 if q else 16, 3: 1 if q else 12, 4: 0 if q else 5, 5: 0 if q else 2}
     for P, cnt in extra.items():
         combos += [(P, rng.choice([0, 0] + list(range(1, min(P, 3) + 1))) if P < 5 else 0) for _ in range(cnt)]
     for k, (P, het) in enumerate(combos):
@@ -231,7 +233,7 @@ def records(ctx):
     # ---- 3. admix_props, 2-4 D ----
     ADM_N = {2: 6 if q else 12, 3: 3 if q else 5, 4: 2 if q else 3}
     ADM_L = {2: 7 if q else 12, 3: 4 if q else 6, 4: 3 if q else 4}
-    plan = {2: 8 if q else 40, 3: 4 if q else 20, 4: 3 if q else 10}
+    plan = {2: 8 if q else 30, 3: 4 if q else 16, 4: 3 if q else 6}
     for P, cnt in plan.items():
         for k in range(cnt):
             xxs = [make_grid(rng, rng.randint(3, ADM_L[P])) for _ in range(P)] if rng.random() < 0.5 else grids_for(P, rng.randint(3, ADM_L[P]))
@@ -251,7 +253,7 @@ def records(ctx):
     # ---- 4. inbreeding, 1-3 D ----
     INB_IND = {1: 6 if q else 10, 2: 3 if q else 5, 3: 2 if q else 2}    # individuals per population
     INB_L = {1: 12 if q else 24, 2: 7 if q else 10, 3: 4 if q else 6}
-    plan = {1: 10 if q else 50, 2: 7 if q else 30, 3: 3 if q else 12}
+    plan = {1: 10 if q else 36, 2: 7 if q else 24, 3: 3 if q else 10}
 
     def rand_F():
         u = rng.random()
@@ -385,6 +387,26 @@ def records(ctx):
         except Exception as e:
             out = {'raised': type(e).__name__}
         add('refine', {'P': P, 'n': n, 'L': L1, 'coef': rats(c)}, out, 'Spectrum.from_phi[analytic vs direct]', 1)
+    # ---- 9. the inbreeding path approaches the direct path as F -> 0 (observed on the implementation) ----
+    for k in range(3 if q else 12):
+        P = 1 + k % 3
+        xxs = grids_for(P, rng.randint(4, {1: 12, 2: 7, 3: 5}[P]))
+        phi = make_phi(rng, [len(x) for x in xxs], xxs)
+        pl = [rng.choice([2, 3, 4]) for _ in range(P)]
+        ns = [p * rng.randint(1, 2) for p in pl]
+        F1 = rng.choice([0.1, 0.03, 0.01])
+        F2 = F1 / 10
+
+        def limit():
+            try:
+                s1 = Spectrum.from_phi_inbreeding(phi, ns, xxs, [F1] * P, pl, mask_corners=False)
+                s2 = Spectrum.from_phi_inbreeding(phi, ns, xxs, [F2] * P, pl, mask_corners=False)
+                t = Spectrum.from_phi(phi, ns, xxs, mask_corners=False, force_direct=True)
+            except Exception as e:
+                return {'raised': type(e).__name__}
+            return {'s1': enc(s1), 's2': enc(s2), 't': enc(t)}
+        add('inb_limit', {'phi': enc_phi(phi), 'grids': [rats(x) for x in xxs], 'ns': ns, 'ploidys': pl, 'F1': rat(F1), 'F2': rat(F2)},
+            limit(), 'Spectrum.from_phi_inbreeding[F->0]', 5)
     return balance(recs)
 
 
@@ -404,8 +426,8 @@ def nontrivial(r):
     i = r['in']
     if r['op'] == 'betabinom':
         return ('bb', i['m'], i['ploidy'], i['alpha'], i['beta'])
-    if r['op'] in ('linear', 'refine'):
-        return (r['op'], r['site'], str(i.get('ns', i.get('n'))), str(i.get('sh', i.get('L'))))
+    if r['op'] in ('linear', 'refine', 'inb_limit'):
+        return (r['op'], r['site'], str(i.get('ns', i.get('n'))), str(i.get('sh', i.get('L', i.get('F1')))))
     if 'raised' in r['out']:
         return (r['op'], r['site'], 'raised')
     perturbed = any(g[0] != '0' or g[-1] != '1' for g in i['grids'])
@@ -434,6 +456,9 @@ def mutate(rec):
         return rec if bump_max(out['row']) else None
     if rec['op'] == 'linear':
         return rec if bump_max(out['s12']['d']) else None
+    if rec['op'] == 'inb_limit':      # the smaller F must be the closer one
+        out['s1'], out['s2'] = out['s2'], out['s1']
+        return rec
     if rec['op'] == 'refine':
         out['a2'], out['d2'] = list(out['a1']), list(out['d1'])
         return rec
